@@ -751,6 +751,79 @@ func ruleSettingsApplied(p *Prog, r *Out) {
 		// and it precedes the first AppendHeaderField
 		r.check(okk, "client encoder follows HEADER_TABLE_SIZE", p.pos(fd.Pos()), "writeRequest applies encTableSize to c.enc before encoding", "the client's write loop no longer applies the server's SETTINGS_HEADER_TABLE_SIZE to its encoder before encoding a request")
 	}
+	// the "seen" marker the write loop compares against starts at the encoder's real size,
+	// and the handshake moves encoder, record and marker together
+	if fd := p.decl("NewConn"); fd != nil {
+		r.fn("NewConn", "(*Conn).doHandshake")
+		init := map[string]int64{}
+		ast.Inspect(fd.Body, func(n ast.Node) bool {
+			switch x := n.(type) {
+			case *ast.AssignStmt:
+				if len(x.Lhs) == 1 {
+					for _, f := range []string{"encTableSize", "encTableSizeSeen"} {
+						if p.isFieldSel(x.Lhs[0], "Conn", f) {
+							if v, ok := p.intConst(x.Rhs[0]); ok {
+								init[f] = v
+							}
+						}
+					}
+				}
+			case *ast.KeyValueExpr:
+				k := p.text(x.Key)
+				if k == "encTableSize" || k == "encTableSizeSeen" {
+					if v, ok := p.intConst(x.Value); ok {
+						init[k] = v
+					}
+				}
+			}
+			return true
+		})
+		encInit := int64(-1)
+		if rd := p.decl("(*HPACK).Reset"); rd != nil {
+			for _, s := range rd.Body.List {
+				if as, ok := s.(*ast.AssignStmt); ok && p.isFieldSel(as.Lhs[0], "HPACK", "maxTableSize") {
+					if v, ok := p.intConst(as.Rhs[0]); ok {
+						encInit = v
+					}
+				}
+			}
+		}
+		r.check(len(init) == 2 && init["encTableSize"] == encInit && init["encTableSizeSeen"] == encInit, "client's table-size record starts at the encoder's size", p.pos(fd.Pos()), fmt.Sprintf("encTableSize = encTableSizeSeen = %d", encInit),
+			fmt.Sprintf("NewConn leaves the record of the encoder's table size at %v while the encoder starts with %d: the write loop applies a new size only when it differs from the recorded one, so the first SETTINGS_HEADER_TABLE_SIZE equal to the stale record (0 when it was never set) is acknowledged and never applied", init, encInit))
+	}
+	// invariant behind the marker: encTableSizeSeen is the encoder's current limit, so the two
+	// only ever change together, with the same value
+	for _, fn := range []string{"(*Conn).doHandshake", "(*Conn).writeRequest"} {
+		fd := p.decl(fn)
+		if fd == nil {
+			continue
+		}
+		ast.Inspect(fd.Body, func(n ast.Node) bool {
+			b, ok := n.(*ast.BlockStmt)
+			if !ok {
+				return true
+			}
+			enc, seen := "", ""
+			var at ast.Node
+			for _, s := range b.List {
+				switch x := s.(type) {
+				case *ast.ExprStmt:
+					if cl, ok := x.X.(*ast.CallExpr); ok && p.calleeOf(cl) == "(*HPACK).SetMaxTableSize" && strings.HasPrefix(p.text(cl.Fun), "c.enc.") {
+						enc, at = squash(p.text(cl.Args[0])), x
+					}
+				case *ast.AssignStmt:
+					if len(x.Lhs) == 1 && p.isFieldSel(x.Lhs[0], "Conn", "encTableSizeSeen") {
+						seen, at = squash(p.text(x.Rhs[0])), x
+					}
+				}
+			}
+			if enc == "" && seen == "" {
+				return true
+			}
+			r.check(enc == seen, fn+" moves the encoder and its marker together", p.pos(at.Pos()), "c.enc.SetMaxTableSize(x) and encTableSizeSeen = x in the same block", fmt.Sprintf("%s changes the encoder's table limit (%q) and the write loop's marker (%q) apart: the marker is compared with every newly received HEADER_TABLE_SIZE to decide whether the encoder needs changing, so once it differs from the encoder's real limit a received size is acknowledged and never applied", fn, enc, seen))
+			return true
+		})
+	}
 	if fd := p.decl("fasthttpResponseHeaders"); fd != nil {
 		r.fn("fasthttpResponseHeaders")
 		dels := map[string]bool{}
